@@ -27,8 +27,10 @@ fn points_set(s: &Shape) -> BTreeSet<(i32, i32)> {
 }
 fn radii_json(r: &RoundedRectangle) -> Value {
     let c = r.corners;
-    json!([[c.top_left.width, c.top_left.height], [c.top_right.width, c.top_right.height],
-           [c.bottom_right.width, c.bottom_right.height], [c.bottom_left.width, c.bottom_left.height]])
+    // (capped at i32::MAX: TLC integers are 32 bit; confined radii are never larger than a side)
+    let m = |v: u32| v.min(i32::MAX as u32);
+    json!([[m(c.top_left.width), m(c.top_left.height)], [m(c.top_right.width), m(c.top_right.height)],
+           [m(c.bottom_right.width), m(c.bottom_right.height)], [m(c.bottom_left.width), m(c.bottom_left.height)]])
 }
 
 fn run_case(rec: &mut Rec, d: &Value) {
@@ -68,7 +70,15 @@ fn run_case(rec: &mut Rec, d: &Value) {
                 }
             }
             "confine" => {
-                let s = Shape::from_desc(&d["shape"]);
+                let mut s = Shape::from_desc(&d["shape"]);
+                if let (Shape::RRect(r), true) = (&mut s, d["xmax"] == 1) {
+                    // descriptors cannot carry numbers above i32::MAX: with "xmax" a radius of i32::MAX stands for u32::MAX
+                    let x = |v: &mut u32| if *v == i32::MAX as u32 { *v = u32::MAX };
+                    for c in [&mut r.corners.top_left, &mut r.corners.top_right, &mut r.corners.bottom_right, &mut r.corners.bottom_left] {
+                        x(&mut c.width);
+                        x(&mut c.height);
+                    }
+                }
                 if let Shape::RRect(r) = &s {
                     let c = r.confine_radii();
                     evs.push(("confine", json!({"size":[r.rectangle.size.width, r.rectangle.size.height],"rin":radii_json(r),"rout":radii_json(&c)})));
@@ -173,14 +183,16 @@ fn main() {
     }
     // display-scale rectangles with huge radii ("pills"): the products radius x side are near and beyond 2^32
     for (w, h) in [(500u32, 400u32), (300, 40), (40, 300), (1024, 1024), (1000, 3), (64, 64)] {
-        for r in [100_000u32, 1_000_000, 4_300_000, 5_000_000, 8_400_000, 10_000_000, 60_000_000, 107_000_000, 1_000_000_000] {
-            if (r as u64) * (w.max(h) as u64) >= (1u64 << 32) {
-                // beyond this the library's final scaling `radius * side` does not fit u32 (not display scale)
-                continue;
-            }
-            for (k, radii) in [json!([[r, r], [r, r], [r, r], [r, r]]), json!([[r, 1], [3, r], [r, r / 2], [0, 0]]), json!([[r, r], [0, 0], [r, r], [0, 0]])].iter().enumerate() {
+        // (until the repair D35 radii with radius x side >= 2^32 were left out here "because the library's final scaling
+        // does not fit u32" - a filter fitted to the code, which hid the defect)
+        for r in [100_000u32, 1_000_000, 4_300_000, 5_000_000, 8_400_000, 10_000_000, 11_000_000, 60_000_000, 107_000_000, 1_000_000_000, 2_147_483_646, 2_147_483_647] {
+            for (k, radii) in [json!([[r, r], [r, r], [r, r], [r, r]]), json!([[r, 1], [3, r], [r, r / 2], [0, 0]]), json!([[r, r], [0, 0], [r, r], [0, 0]]),
+                               json!([[r, 3], [7, r], [0, 0], [1, 1]])].iter().enumerate() {
                 let s = json!({"k":"rrect","r":[k as i32, -3, w, h],"radii":radii});
                 run_case(&mut rec, &json!({"t":"confine","shape":s}));
+                if r == 2_147_483_647 {
+                    run_case(&mut rec, &json!({"t":"confine","shape":s,"xmax":1}));
+                }
             }
         }
     }
